@@ -13,7 +13,7 @@ from .. import repo
 from ..core import h64
 from ..doubles import clientio as IO
 from ..doubles import peers as P
-from ..doubles.sched import Sched, SchedLock, explore
+from ..doubles.sched import Sched, SchedLock, explore, wrap_locks
 from ..spec import adu as ADU
 from ..spec.pdu import REQ
 
@@ -28,8 +28,16 @@ class LatencyPeer(P.ScriptedPeer):
     foreign_first = False
 
     silent_unit0 = False
+    drop_first = False
 
     def answer(self, conn, f):
+        if self.drop_first and f.msg.get('address', 1) % 4 == 0:
+            dropped = self.__dict__.setdefault('dropped', set())
+            if f.msg['address'] not in dropped:
+                dropped.add(f.msg['address'])
+                self.i += 1
+                self.events.append((self.i - 1, 'none', f.key(), b''))
+                return                               # the reply to this request is lost: the caller times out
         if self.silent_unit0 and not f.unit:
             self.i += 1
             self.events.append((self.i - 1, 'none', f.key(), b''))
@@ -66,6 +74,7 @@ def one_schedule(kind, nthreads, ntx, chooser, preconnect, wrap_lock=True, varia
     peer = LatencyPeer(framing, timeout=1.0)
     peer.foreign_first = (variant == 'retry')
     peer.silent_unit0 = (variant == 'broadcast')
+    peer.drop_first = (variant == 'fault')
     env = IO.Env(peer, sched=sched)
     env.op_limit = 50000
     results = {}
@@ -81,6 +90,9 @@ def one_schedule(kind, nthreads, ntx, chooser, preconnect, wrap_lock=True, varia
         if wrap_lock and lock_present:
             wrapper = SchedLock(client.transaction._transaction_lock, sched)
             client.transaction._transaction_lock = wrapper
+        if wrap_lock:
+            # every other lock the client, its transaction manager or its framer own (none on this tree) is put under the scheduler too
+            wrap_locks(sched, client, client.transaction, client.framer)
         for i in range(nthreads):
             def work(i=i):
                 name = threading.current_thread().name
@@ -111,11 +123,16 @@ def judge(out, nthreads, ntx, variant='plain'):
     kinds = {}
     st = out['status']
     if st == 'DEADLOCK':
-        kinds['deadlock'] = 'all live threads are blocked on the transaction lock and nobody holds it'
+        kinds['deadlock'] = 'all live threads are blocked on locks of the client and none of them can proceed'
     elif st == 'STEPS':
         kinds['livelock'] = 'schedule exceeded the step bound'
     # (3) own replies
     for (i, j), (addr, cnt, regs, rep) in sorted(out['results'].items()):
+        if variant == 'fault' and addr % 4 == 0:
+            # the reply to the first transmission of this request is lost: an error object is the right result
+            if regs is not None or 'RAISED' in rep or 'WATCHDOG' in rep:
+                kinds.setdefault('wrong-or-lost-reply', 'thread %d transaction %d (address %d, reply lost) returned %s' % (i, j, addr, rep if regs is None else regs))
+            continue
         if regs != expected_registers(addr, cnt):
             kinds.setdefault('wrong-or-lost-reply', 'thread %d transaction %d (address %d) returned %s' % (i, j, addr, rep if regs is None else regs))
     if st == 'OK' and len(out['results']) != nthreads * ntx:
@@ -130,7 +147,8 @@ def judge(out, nthreads, ntx, variant='plain'):
             nframes += len(frames)
     if st == 'OK' and (nframes != nthreads * ntx if variant != 'retry' else not nthreads * ntx <= nframes <= 3 * nthreads * ntx) and 'wrong-or-lost-reply' not in kinds:
         kinds['frame-count'] = '%d request frames written for %d transactions' % (nframes, nthreads * ntx)
-    # (2) mutual exclusion of the send..return window
+    # (2) mutual exclusion of the send..return window.  Opening a connection inside another thread's window is kept apart
+    # (connect() is also called outside the lock - the recorded first-connect race); sending or receiving there never is excusable.
     owner = None
     for th, op, detail, vt in out['trace']:
         if op in ('call',):
@@ -144,7 +162,10 @@ def judge(out, nthreads, ntx, variant='plain'):
                 kinds.setdefault('overlap', '%s sends while %s is between its send and the end of its call' % (th, owner))
             owner = th
         elif owner is not None and owner != th:
-            kinds.setdefault('overlap', '%s performs %s while %s is between its send and the end of its call' % (th, op, owner))
+            if op in ('socket', 'connect', 'connected', 'open', 'close'):
+                kinds.setdefault('overlap-connect', '%s performs %s while %s is between its send and the end of its call' % (th, op, owner))
+            else:
+                kinds.setdefault('overlap', '%s performs %s while %s is between its send and the end of its call' % (th, op, owner))
     return kinds
 
 
@@ -152,8 +173,24 @@ def schedule_hash(out):
     return h64(tuple((th, op) for th, op, d, vt in out['trace'] if op not in ('call', 'return')))
 
 
+def double_connect(trace):
+    """signature of the recorded connect race: a second connection is opened while the first is still open (no close in
+    between) - two threads were inside connect() at once and the second socket replaced the first"""
+    open_now = False
+    for th, op, d, vt in trace:
+        if op in ('connect', 'open'):
+            if open_now:
+                return True
+            open_now = True
+        elif op == 'close':
+            open_now = False
+    return False
+
+
 def explore_config(run, kind, nthreads, ntx, preconnect, limit, sample, r, variant='plain'):
-    region = None if preconnect else 'first-connect-race'
+    # connect() runs outside the transaction lock: whenever the client is closed while >= 2 threads call it (first use,
+    # or after a fault closed the connection) the recorded race can occur; it is excused only where the trace shows it
+    region = None if (preconnect and variant != 'fault') else 'first-connect-race'
 
     def run_one(chooser):
         out = one_schedule(kind, nthreads, ntx, chooser, preconnect, variant=variant)
@@ -187,7 +224,7 @@ def explore_config(run, kind, nthreads, ntx, preconnect, limit, sample, r, varia
                  sample_class=(kind, nthreads, ntx, preconnect, variant, bool(kinds)))
         if not kinds:
             continue
-        if region and set(kinds) <= {'wrong-or-lost-reply', 'frame-count', 'overlap', 'missing-result'}:
+        if region and double_connect(out['trace']) and set(kinds) <= {'wrong-or-lost-reply', 'frame-count', 'overlap-connect', 'missing-result'}:
             run.known(region, 'two threads inside connect() at once: connect is called outside the transaction lock and the second socket replaces the first', case)
             continue
         run.violation('%s:%s:%s' % (kind, '+'.join(sorted(kinds)), 'clean' if not region else 'in-' + region), case,
@@ -212,11 +249,13 @@ def run(run):
                 ('rtu', 4, 2, True, 0, 2000), ('tcp', 2, 1, False, 2000, 0), ('tcp', 2, 2, False, 3000, 500), ('rtu', 2, 1, False, 1000, 200)]
     plan = [p + ('plain',) for p in plan]
     if run.thorough:
-        plan = [('rtu', 2, 2, True, 2000, 500, 'broadcast'), ('ascii', 2, 2, True, 2000, 500, 'broadcast'), ('tcp', 3, 1, True, 3000, 500, 'broadcast'),
+        plan = [('tcp', 2, 2, True, 3000, 1000, 'fault'), ('tcp', 3, 1, True, 2000, 500, 'fault'), ('rtu', 2, 2, True, 1500, 500, 'fault'), ('tcp', 3, 2, True, 0, 1500, 'fault'),
+                ('rtu', 2, 2, True, 2000, 500, 'broadcast'), ('ascii', 2, 2, True, 2000, 500, 'broadcast'), ('tcp', 3, 1, True, 3000, 500, 'broadcast'),
                 ('binary', 3, 1, True, 1000, 500, 'broadcast'), ('tcp', 2, 2, True, 3000, 500, 'units'), ('tcp', 3, 1, True, 3000, 0, 'units'), ('rtu', 2, 2, True, 1000, 500, 'units'),
                  ('tcp', 2, 2, True, 3000, 1000, 'retry'), ('tcp', 3, 1, True, 2000, 500, 'retry'), ('rtu', 2, 1, True, 1500, 300, 'retry')] + plan
     else:
-        plan = [('rtu', 2, 1, True, 80, 30, 'broadcast'), ('ascii', 2, 2, True, 60, 60, 'broadcast'), ('tcp', 3, 1, True, 80, 40, 'broadcast'),
+        plan = [('tcp', 2, 2, True, 120, 60, 'fault'), ('tcp', 3, 1, True, 60, 40, 'fault'), ('rtu', 2, 2, True, 60, 40, 'fault'),
+                ('rtu', 2, 1, True, 80, 30, 'broadcast'), ('ascii', 2, 2, True, 60, 60, 'broadcast'), ('tcp', 3, 1, True, 80, 40, 'broadcast'),
                 ('tcp', 2, 2, True, 150, 50, 'units'), ('tcp', 3, 1, True, 100, 0, 'units'), ('rtu', 2, 1, True, 80, 0, 'units'),
                  ('tcp', 2, 2, True, 150, 80, 'retry'), ('tcp', 3, 1, True, 100, 50, 'retry'), ('rtu', 2, 1, True, 80, 30, 'retry')] + plan
     for idx, (kind, nt, ntx, pre, limit, sample, variant) in enumerate(plan):
